@@ -1,13 +1,33 @@
 #!/usr/bin/env python3
-"""Rewrites the kill-matrix table between the MATRIX markers of DESIGN.md from mutants/matrix.tsv."""
-import collections
-rows=[l.rstrip('\n').split('\t') for l in open('/verif/mutants/matrix.tsv') if l.strip()]
+"""Rewrites the kill-matrix table between the MATRIX markers of DESIGN.md.
+
+Sources (later files override earlier ones, cell by cell):
+  mutants/matrix_r123.tsv          full cross matrix, rounds 1-3 + regression patches (checks as of round 3)
+  mutants/matrix_partial_full.tsv  partial cross matrix, checks as of round 5 (stopped: too slow next to other jobs)
+  mutants/own_r1to6.tsv            every stored change against the check of its own property, current checks
+  mutants/own_r7.tsv               the same for round 7
+A blank cell = that (change, check) pair was not run."""
+import collections, os, re
 by=collections.OrderedDict()
-for name,c,code,nv in rows:
-    by.setdefault(name,{})[c]=code
+def load(f):
+    p='/verif/mutants/'+f
+    if not os.path.exists(p): return
+    for l in open(p):
+        l=l.rstrip('\n')
+        if not l.strip(): continue
+        name,c,code,nv=l.split('\t')
+        if c=='-': continue
+        by.setdefault(name,{})[c]=code
+for f in ['matrix_r123.tsv','matrix_partial_full.tsv','own_r1to6.tsv','own_r7.tsv']:
+    load(f)
+def key(n):
+    m=re.match(r'(C\d\d)-([a-z])$',n)
+    return (0,m.group(1),m.group(2)) if m else (1,n,'')
+names=sorted(by,key=key)
 checks=["C%02d"%i for i in range(1,20)]
 lines=["| change | "+" | ".join(c[1:] for c in checks)+" |","|---|"+"|".join("--" for _ in checks)+"|"]
-for name,d in by.items():
+for name in names:
+    d=by[name]
     lines.append("| "+name+" | "+" | ".join("X" if d.get(c)=='1' else ("·" if d.get(c)=='0' else ("m" if d.get(c) else " ")) for c in checks)+" |")
 p='/verif/DESIGN.md'
 s=open(p).read()
@@ -15,5 +35,5 @@ i=s.index("<!-- MATRIX-BEGIN -->")+len("<!-- MATRIX-BEGIN -->\n")
 j=s.index("<!-- MATRIX-END -->")
 s=s[:i]+"\n".join(lines)+"\n"+s[j:]
 open(p,'w').write(s)
-own_missed=[n for n,d in by.items() if not any(d.get(c)=='1' for c in checks if c in n)]
-print(len(by),'changes;', 'not caught by own check:', own_missed)
+own_missed=[n for n in names if not any(by[n].get(c)=='1' for c in checks if c in n)]
+print(len(names),'changes;', 'not caught by own check:', own_missed)
